@@ -146,6 +146,10 @@ type path struct {
 	forkSites map[string]int
 	panicAt   string
 	failedIDs map[string]bool
+	watchCB    value
+	watchNames []string
+	watchHit   map[*ssa.Function]bool
+	inWatch    bool
 
 	q0, qs0, qu0, qk0 int
 	t0                time.Duration
